@@ -50,7 +50,7 @@ func sizeCases(root *vlib.Rand) []sizeCase {
 	if vlib.Thorough() {
 		out = append(out, sizeCase{500000, "over-100KB"}, sizeCase{1<<20 + 1, "over-100KB"})
 	}
-	for i := 0; i < vlib.Scale(40, 1000); i++ {
+	for i := 0; i < vlib.Scale(40, 600); i++ {
 		r := root.SplitN("prng-size", i)
 		var n int
 		switch r.Intn(3) {
@@ -273,7 +273,7 @@ func (h *H) checkStructure(armor, want, refHead, refTail []byte, rc rec) (*armor
 func (h *H) metamorphic(root *vlib.Rand) {
 	res := h.res
 	sizes := []int{0, 1, 2, 3, 23, 24, 25, 47, 48, 100, 1000, 5000, 23803, 23806, 23809, 30000, 47616, 71430, 100001}
-	nPay := vlib.Scale(36, 500)
+	nPay := vlib.Scale(36, 300)
 	for pi := 0; pi < nPay; pi++ {
 		if h.abort {
 			return
